@@ -1,5 +1,249 @@
-(* Property C08 - only statements closed by `exact`, each followed by Print Assumptions. *)
+(* Property C08 - only statements closed by `exact`, each followed by Print Assumptions.
+
+   Clause of the property text                          theorem(s) below
+   ---------------------------------------------------  ------------------------------------------------
+   "after any sequence of append, prepend, assign,      C08_refines_queue (whole histories from the empty
+    resize, reserve, removeFront, removeBack, clear,    world), C08_refines_queue_step (one step from any
+    free, swap, copy and attach a Buffer exposes        related pair of states); per method and per branch:
+    exactly the bytes a reference byte queue holds      C08_assign, C08_prepend (head-room / in-place shift /
+    (bytes newly exposed by a growing resize are        reallocate), C08_resize (reallocate / in place /
+    unspecified)"                                       compact to front / non-owning), C08_append,
+                                                        C08_append_self, C08_remove_front, C08_remove_back,
+                                                        C08_reserve, C08_clear
+   "whenever it owns its storage one readable zero      C08_terminator (every variable of every reachable
+    byte follows the last data byte"                    world: the cell at [stop] is inside the allocation
+                                                        of capacity+1 cells and holds 0)
+   "it never reads or writes outside its own            C08_memory_safe (histories), C08_memory_safe_step
+    allocation or the attached range"                   (one step from any reachable world): the only error
+                                                        the model can produce is BadArg (an operand variable
+                                                        that does not exist - exactly when the reference
+                                                        object rejects the history).  OutOfBounds (rd/wr
+                                                        outside the allocation, read outside the attached
+                                                        range), WriteForeign (any non-empty write through a
+                                                        pointer into attached memory or a _capacity field),
+                                                        Overlap (Memory::copy on overlapping ranges) and
+                                                        BadState never occur.  Foreign memory has no write
+                                                        operation in the model at all: [BReg r] carries [r]
+                                                        unchanged (C08_no_foreign_write).
+   representation invariant                             C08_invariant_initial_and_preserved, C08_rep_invariant
+   (buffer <= start <= end <= buffer + capacity, ...)   (spelled out for every reachable world)
+
+   Quantifier "for all histories, sizes and front/back offsets, including histories that mix attach
+   with owning operations": every theorem is for all op lists / all states satisfying [inv]; op lists
+   contain OAttach, OSwap and the aliasing calls (v = v, v.append(v), v.prepend(v)) without restriction.
+   Not modelled (see level_note of checks/C08.py): the order of delete[] relative to the copy out of
+   the old storage (AddressSanitizer in the correspondence run), wrap-around of size arithmetic for
+   resize / reserve / constructor arguments near 2^64 (sizes are [nat] here; such a request cannot be
+   allocated).  removeFront / removeBack take every usize: C08_remove_clamp. *)
 From Coq Require Import ZArith List.
 From Common Require Import ListAux.
 From Buffer Require Import BufferSpec BufferModel BufferProofs.
 Import ListNotations.
+
+(* ---- (4) representation invariant --------------------------------------------------------------- *)
+
+Theorem C08_invariant_initial_and_preserved :
+  winv [] /\ forall w o w' a, winv w -> step w o = Ok (w', a) -> winv w'.
+Proof. exact (conj (Forall_nil inv) step_inv_lemma). Qed.
+Print Assumptions C08_invariant_initial_and_preserved.
+
+Theorem C08_reachable_inv : forall w, reachable w -> winv w.
+Proof. exact reachable_inv_lemma. Qed.
+Print Assumptions C08_reachable_inv.
+
+Theorem C08_rep_invariant : forall w b, reachable w -> In b w ->
+  match own b with
+  | Some a => wb b = BOwn /\ length a = capf b + 1 /\ start b <= stop b /\ stop b <= capf b
+  | None => capf b = 0 /\
+            match wb b with
+            | BOwn => False
+            | BReg r => start b <= stop b /\ stop b <= length r
+            | BCap _ => start b = 0 /\ stop b = 0
+            end
+  end.
+Proof. exact rep_lemma. Qed.
+Print Assumptions C08_rep_invariant.
+
+(* ---- (1) memory safety -------------------------------------------------------------------------- *)
+
+Theorem C08_memory_safe_step : forall w o e, winv w -> step w o = Err e ->
+  e = BadArg /\ spec_step (map exposed w) o = None.
+Proof. exact step_safe_lemma. Qed.
+Print Assumptions C08_memory_safe_step.
+
+Theorem C08_memory_safe : forall ops e, run [] ops = Err e -> e = BadArg /\ spec_run [] ops = None.
+Proof. exact run_safe_lemma. Qed.
+Print Assumptions C08_memory_safe.
+
+Theorem C08_run_reachable : forall ops w w' rs, reachable w -> run w ops = Ok (w', rs) -> reachable w'.
+Proof. exact run_reachable_lemma. Qed.
+Print Assumptions C08_run_reachable.
+
+(* the only write primitive, applied through a window that is not into the own allocation (attached
+   range or _capacity field), succeeds only for zero bytes and changes nothing; every other attempt is
+   Err WriteForeign, which C08_memory_safe excludes *)
+Theorem C08_no_foreign_write : forall b off d b', wr_win b off d = Ok b' -> wb b <> BOwn -> d = [] /\ b' = b.
+Proof. exact wr_win_foreign_lemma. Qed.
+Print Assumptions C08_no_foreign_write.
+
+(* ---- (2) refinement to the reference byte queue ------------------------------------------------- *)
+
+Theorem C08_refines_queue_step : forall w qs o, winv w -> wref w qs ->
+  match spec_step qs o with
+  | Some (qs', a') => exists w' a, step w o = Ok (w', a) /\ winv w' /\ wref w' qs' /\ ans_ref a a'
+  | None => step w o = Err BadArg
+  end.
+Proof. exact step_sim_lemma. Qed.
+Print Assumptions C08_refines_queue_step.
+
+Theorem C08_refines_queue : forall ops w qs, winv w -> wref w qs ->
+  match spec_run qs ops with
+  | Some (qs', rs') => exists w' rs, run w ops = Ok (w', rs) /\ winv w' /\ wref w' qs' /\ Forall2 ans_ref rs rs'
+  | None => run w ops = Err BadArg
+  end.
+Proof. exact run_sim_lemma. Qed.
+Print Assumptions C08_refines_queue.
+
+(* per method, per branch: from any state satisfying the invariant the call succeeds, re-establishes
+   the invariant and exposes exactly these bytes *)
+Theorem C08_assign : forall b d, inv b -> exists b', assign_ b d = Ok b' /\ inv b' /\ exposed b' = d.
+Proof. exact assign_ok. Qed.
+Print Assumptions C08_assign.
+
+Theorem C08_prepend : forall b d, inv b -> exists b', prepend_ b d = Ok b' /\ inv b' /\ exposed b' = d ++ exposed b.
+Proof. exact prepend_ok. Qed.
+Print Assumptions C08_prepend.
+
+Theorem C08_resize : forall b n, inv b ->
+  exists b' t, resize_ b n = Ok b' /\ inv b' /\
+               exposed b' = firstn n (exposed b) ++ t /\ length t = n - size b /\ (owns b' = true \/ n = 0).
+Proof. exact resize_ok. Qed.
+Print Assumptions C08_resize.
+
+Theorem C08_append : forall b d, inv b -> exists b', append_ b d = Ok b' /\ inv b' /\ exposed b' = exposed b ++ d.
+Proof. exact append_ok. Qed.
+Print Assumptions C08_append.
+
+Theorem C08_append_self : forall b, inv b -> exists b', append_self b = Ok b' /\ inv b' /\ exposed b' = exposed b ++ exposed b.
+Proof. exact append_self_ok. Qed.
+Print Assumptions C08_append_self.
+
+Theorem C08_remove_front : forall self b n, inv b ->
+  exists b', remove_front self b n = Ok b' /\ inv b' /\ exposed b' = skipn n (exposed b).
+Proof. exact remove_front_ok. Qed.
+Print Assumptions C08_remove_front.
+
+Theorem C08_remove_back : forall self b n, inv b ->
+  exists b', remove_back self b n = Ok b' /\ inv b' /\ exposed b' = firstn (size b - n) (exposed b).
+Proof. exact remove_back_ok. Qed.
+Print Assumptions C08_remove_back.
+
+(* removeFront / removeBack with an argument at or beyond the current size: the result does not depend on
+   the argument (model and reference alike).  Sizes are [nat]; the drivers pass an argument above 10^6
+   (e.g. 2^64-1, which the repaired code handles by comparing sizes instead of pointers) as size+1. *)
+Theorem C08_remove_clamp : forall self b n m, size b <= n -> size b <= m ->
+  remove_front self b n = remove_front self b m /\ remove_back self b n = remove_back self b m.
+Proof. exact remove_clamp_lemma. Qed.
+Print Assumptions C08_remove_clamp.
+
+Theorem C08_spec_remove_clamp : forall (q : queue) n m, length q <= n -> length q <= m ->
+  skipn n q = skipn m q /\ firstn (length q - n) q = firstn (length q - m) q.
+Proof. exact spec_remove_clamp_lemma. Qed.
+Print Assumptions C08_spec_remove_clamp.
+
+Theorem C08_reserve : forall b c, inv b -> exists b', reserve_ b c = Ok b' /\ inv b' /\ exposed b' = exposed b.
+Proof. exact reserve_ok. Qed.
+Print Assumptions C08_reserve.
+
+Theorem C08_clear : forall b, inv b -> exists b', clear_ b = Ok b' /\ inv b' /\ exposed b' = [].
+Proof. exact clear_ok. Qed.
+Print Assumptions C08_clear.
+
+(* ---- (3) terminator ----------------------------------------------------------------------------- *)
+
+Theorem C08_terminator : forall w b, reachable w -> In b w -> owns b = true ->
+  exists a, own b = Some a /\ length a = capf b + 1 /\ stop b < length a /\
+            nth_error a (stop b) = Some (Some 0%Z) /\ after_end b = Some (Some 0%Z).
+Proof. exact terminator_lemma. Qed.
+Print Assumptions C08_terminator.
+
+(* ---- non-vacuity -------------------------------------------------------------------------------- *)
+
+(* one history through every branch of prepend (head-room, in-place shift, reallocate from an owning
+   and from an attached state) and resize (reallocate, in place, compact to front, non-owning), mixing
+   attach, swap and the aliasing calls *)
+Definition ex_ops : list op :=
+  [ ONewData [1;2;3]%Z;          (* v0 = "123", capacity 3                                  *)
+    OReserve 0 10;               (* reallocate to capacity 10                                *)
+    ORemoveFront 0 1;            (* head-room 1                                              *)
+    OPrepend 0 [9]%Z;            (* prepend: head-room                          -> 9 2 3      *)
+    ORemoveFront 0 2;            (* head-room 2, "3"                                          *)
+    OPrepend 0 [7;7;7]%Z;        (* prepend: in-place shift                     -> 7 7 7 3    *)
+    ORemoveFront 0 1;            (* start 1                                     -> 7 7 3      *)
+    OResize 0 5;                 (* resize: in place, two unspecified bytes                   *)
+    ORemoveFront 0 3;            (* start 4, size 2                                           *)
+    OResize 0 8;                 (* resize: compact to front                                  *)
+    OResize 0 12;                (* resize: reallocate                                        *)
+    OAssign 0 [4;5]%Z;
+    OPrepend 0 [1;1;1;1;1;1;1;1;1;1;1]%Z;   (* prepend: reallocate (owning)                   *)
+    ONew;                        (* v1 default                                                *)
+    OAttach 1 [65;66;67]%Z;      (* v1 attached "ABC"                                         *)
+    ORemoveFront 1 1;            (* window moves inside the attached range     -> B C         *)
+    OPrepend 1 [64]%Z;           (* prepend: reallocate from an attached state -> @ B C       *)
+    OAttach 1 [70;71]%Z;
+    OAppend 1 [72]%Z;            (* append on attached: resize reallocates     -> F G H       *)
+    OAttach 1 [80;81]%Z;
+    OResize 1 0;                 (* resize: non-owning                                        *)
+    OSwap 0 1;
+    OAppendB 1 1;                (* b.append(b)                                               *)
+    OPrependB 0 1;
+    OAsg 0 0;
+    OEq 0 1;
+    ORemoveBack 1 100;
+    OFree 0 ].
+
+Example ex_run_ok :
+  exists w rs, run [] ex_ops = Ok (w, rs) /\ map exposed w = [ []; [] ] /\ map owns w = [false; true] /\
+               map after_end w = [None; Some (Some 0%Z)].
+Proof. eexists. eexists. vm_compute. repeat split. Qed.
+
+Example ex_spec_accepts : exists qs rs, spec_run [] ex_ops = Some (qs, rs).
+Proof. eexists. eexists. vm_compute. reflexivity. Qed.
+
+Definition ex_prefix := firstn 13 ex_ops.
+Example ex_prefix_state :
+  exists w rs, run [] ex_prefix = Ok (w, rs) /\
+    map exposed w = [ map (@Some Z) [1;1;1;1;1;1;1;1;1;1;1;4;5]%Z ] /\ map after_end w = [Some (Some 0%Z)].
+Proof. eexists. eexists. vm_compute. repeat split. Qed.
+
+(* a growing resize exposes bytes the reference leaves unspecified; the model shows stale ones *)
+Example ex_resize_unspecified :
+  spec_run [] (firstn 8 ex_ops) = Some ([ [Some 7; Some 7; Some 3; None; None]%Z ], [None;None;None;None;None;None;None;None]) /\
+  exists w rs, run [] (firstn 8 ex_ops) = Ok (w, rs) /\ map exposed w = [ [Some 7; Some 7; Some 3; Some 0; None]%Z ].
+Proof. split; [vm_compute; reflexivity|]. eexists. eexists. vm_compute. split; reflexivity. Qed.
+
+(* the error the safety theorem leaves possible does occur, and only for a missing variable *)
+Example ex_badarg : run [] [ONew; OClear 1] = Err BadArg /\ spec_run [] [ONew; OClear 1] = None.
+Proof. vm_compute. split; reflexivity. Qed.
+
+(* the invariant and the terminator are not vacuous: a reachable world with an owning variable with
+   head-room, slack and a terminator inside its allocation *)
+Example ex_reachable :
+  exists w b a, reachable w /\ In b w /\ owns b = true /\ own b = Some a /\
+                start b = 1 /\ stop b = 3 /\ capf b = 10 /\ length a = 11 /\ nth_error a 3 = Some (Some 0%Z).
+Proof.
+  destruct (run [] (firstn 3 ex_ops)) as [[w rs]|e] eqn:E; [|vm_compute in E; discriminate].
+  pose proof (run_reachable_lemma _ _ _ _ reach_init E) as R.
+  vm_compute in E. injection E as Ew _. subst w.
+  eexists. eexists. eexists. split; [exact R|]. split; [left; reflexivity|]. vm_compute. repeat split.
+Qed.
+
+Example ex_foreign_write_refused :
+  wr_win (attach_ (default_ 0) [1;2;3]%Z) 3 [Some 0%Z] = Err WriteForeign /\
+  wr_win (attach_ (default_ 0) [1;2;3]%Z) 3 [] = Ok (attach_ (default_ 0) [1;2;3]%Z).
+Proof. split; reflexivity. Qed.
+
+Example ex_remove_clamp :
+  remove_back 0 (mkbuf (Some [Some 1; Some 2; Some 0; None]%Z) BOwn 0 2 3) 5 =
+  Ok (mkbuf (Some [Some 0; Some 2; Some 0; None]%Z) BOwn 0 0 3).
+Proof. reflexivity. Qed.
